@@ -99,6 +99,13 @@ def _store_at(o, v, index):
 
 def apply(store, op):
     t = op[0]
+    if t == 'setlistfrom':
+        # a string list set to a selection of its own elements, each handed over as the getter returned it
+        _, path, idxs = op
+        so = _opt(store, path)
+        if so is None or so.decl.kind != 'str' or not so.decl.is_list or any(k >= len(so.values) or so.values[k] is None for k in idxs):
+            return None
+        return apply(store, ('setlist', path, 'str', [so.values[k] for k in idxs]))
     if t == 'setfrom':
         # the string the getter returns for (src, sidx) handed straight back to the by-name setter: the same as setting a copy
         _, path, index, src, sidx = op
@@ -287,6 +294,9 @@ def driver_line(op, ctx='A'):
         if index is not None:
             l += ' %d' % index
         return l, 'r ' + _KOPS[kind]
+    if t == 'setlistfrom':
+        _, path, idxs = op
+        return 'setlist_from %s %s %d %s' % (ctx, enc(path), len(idxs), ' '.join('%d' % k for k in idxs)), 'r setlist_from'
     if t == 'setfrom':
         _, path, index, src, sidx = op
         return 'setstr_from %s %s %d %s %d' % (ctx, enc(path), index, enc(src), sidx), 'r setstr_from'
